@@ -423,7 +423,8 @@ class AudioThread(threading.Thread):
 
     for chunk in chunks(self.audio,
                         size=self.chunk_size*self.nchannels,
-                        dfmt=self.dfmt):
+                        dfmt=self.dfmt,
+                        padval=0): # An int zero can be packed in any format
       #Below is a faster way to call:
       #  self.stream.write(chunk, self.chunk_size)
       self.write_stream(st, chunk, self.chunk_size, False)
